@@ -1,6 +1,8 @@
 package sem
 
 import (
+	"os"
+	"strconv"
 	"fmt"
 	"math/rand"
 	"sync"
@@ -23,6 +25,9 @@ func RunCases(c *vk.Ctx, srv *drive.Srv, label string, n int, opt gen.Options, c
 	var wg sync.WaitGroup
 	slots := make(chan struct{}, par)
 	for i := 0; i < n; i++ {
+		if only := os.Getenv("VERIF_ONLY_CASE"); only != "" && only != strconv.Itoa(i) { // debugging aid
+			continue
+		}
 		wg.Add(1)
 		slots <- struct{}{}
 		go func(i int) {
